@@ -25,8 +25,10 @@ RULE = (
     "coefficients (14 flavours, random D) so that polynomial inputs of degree <= deg have polynomial outputs, new "
     "target grid (random inside the range / subset / equal / nodes below 1e-7 moved up by 1.5-3 / relative jitter "
     "1e-7..8e-6) and/or new input grid (jittered-step grid covering the range / superset with area mid-points / equal "
-    "/ nodes below 1e-7 moved down by 1.5-3 / jitter); oracle: xgrid_reshape(op) applied to the polynomial sampled on "
-    "the new input grid == the analytic output polynomial at the new target nodes; in addition a generic random operator is compared with "
+    "/ nodes below 1e-7 moved down by 1.5-3 / jitter), drawn independently, or (1 case in 4) ONE new grid running from "
+    "x_min to 1 used on both sides (rebuilt with other steps / superset / subset / interior nodes moved); oracle: "
+    "xgrid_reshape(op) applied to the polynomial sampled on the new input grid == the analytic output polynomial at the "
+    "new target nodes; in addition a generic random operator is compared with "
     "R_target . op . R_input built from the exact reference basis. Non-trivial = a rotation that is not the identity, "
     "or a new grid that differs from the old one; distinct by the whole case."
 )
@@ -117,7 +119,7 @@ def strategy(tier):
         steps = draw(st.lists(fl(0.6, 1.4), min_size=n - 1, max_size=n - 1))
         e = draw(st.one_of(fl(1.0, 9.0), fl(7.2, 9.0)))
         grid = _build(log, 10.0**-e, steps)
-        side = pick(draw, ["target", "input", "both"])
+        side = pick(draw, ["target", "input", "both", "same"])
 
         def unit_list(m):
             return draw(st.lists(fl(0.0, 1.0), min_size=m, max_size=m))
@@ -180,6 +182,36 @@ def strategy(tier):
                 if x not in g:
                     g = sorted(g + [x])
             inp = {"kind": ik, "grid": g}
+        if side == "same":
+            # ONE new grid for output and input (the usual "move the whole operator to another grid"): it has to lie inside
+            # the operator's range (target side) and to cover it (input side), i.e. to run from exactly x_min to 1
+            sk = pick(draw, ["rebuilt", "rebuilt-same-length", "superset", "subset", "interior-moved"])
+            if sk in ("rebuilt", "rebuilt-same-length"):
+                m = n if sk == "rebuilt-same-length" else draw(st.integers(max(deg + 1, 2), 14))
+                g = _build(log, grid[0], draw(st.lists(fl(0.6, 1.4), min_size=m - 1, max_size=m - 1)))
+                g[0] = grid[0]
+            elif sk == "superset":
+                extra = draw(st.lists(st.tuples(st.integers(0, n - 2), fl(0.3, 0.7)), min_size=1, max_size=4))
+                g = list(grid) + [_between(log, grid[i], grid[i + 1], t) for i, t in extra]
+            elif sk == "subset":
+                keep = draw(st.lists(st.booleans(), min_size=n - 2, max_size=n - 2))
+                g = grid[:1] + [x for x, k in zip(grid[1:-1], keep) if k] + grid[-1:]
+            else:
+                ts = draw(st.lists(fl(0.2, 0.8), min_size=n - 2, max_size=n - 2))
+                # every interior node moves by at most 21% of the adjacent step (gaps shrink to >= 58%)
+                g = grid[:1] + [
+                    _between(log, grid[k + 1], grid[k + 2], (t - 0.5) * 0.7) if t >= 0.5
+                    else _between(log, grid[k], grid[k + 1], 1.0 - (0.5 - t) * 0.7)
+                    for k, t in enumerate(ts)
+                ] + grid[-1:]  # fmt: skip
+            g = sorted(set(min(max(x, grid[0]), 1.0) for x in g))
+            for x in grid:  # degree+1 points are needed to build a basis on it
+                if len(g) >= max(deg + 1, 2):
+                    break
+                if x not in g:
+                    g = sorted(g + [x])
+            tgt = {"kind": "same:" + sk, "grid": g}
+            inp = {"kind": "same:" + sk, "grid": list(g)}
         return {
             "kind": "xgrid", "log": log, "grid": grid, "deg": min(deg, n - 1), "side": side, "target": tgt, "input": inp,
             "seed": draw(seed), "with_error": draw(st.booleans()),
